@@ -133,6 +133,95 @@ def main():
     ck.family("whole_run_bound_test", len(scs), len(scs), [], [i for i, _ in bbad], dist={"note": "test of the consequence clause (not a proof): worst-case loss per selection recomputed at every strategy call"})
     for i, w in bbad[:2]:
         ck.fail("C01-bound", "under max_selection_exposure=%s and max_live_trade_count=1 the strategy's worst-case loss on a selection reached %.2f" % (scs[i]["_limit"] / 100, w), {"scenario": scs[i], "worst_seen": w})
+    # ---- several orders per selection over time; the strategy reads its exposure on every runner at every update (a stale figure inside the
+    #      blotter lets a later order through); no price replacements (the listed finding)
+    scs2 = []
+    for _ in range(160 if thorough else 50):
+        s = simgen.gen_scenario(rng, {"kinds": ["L"], "p_manage": 0.15, "nstrats": [1], "no_remove": True, "p_remove": 0.0, "p_place": 0.9, "p_burst": 0.0,
+                                      "p_inplay": 0.0, "min_upd": 8, "max_upd": 13, "nmarkets": [1], "p_fok": 0.0, "steps": [200, 300, 500, 1000, 1200, 5000]})
+        lim = rng.choice([500, 1000, 1500])
+        s["strategies"][0].update({"max_sel": lim / 100, "max_order": lim / 100, "max_live": 10 ** 6, "max_trade": 10 ** 6, "read_exposure": True})
+        s["_limit"] = lim
+        # acknowledgement discipline (the property's domain): one placement per selection per update, updates more than the placement latency apart
+        for e in s["script"]:
+            seen_sel, acts = set(), []
+            for a in e["acts"]:
+                if a[0] == "replace":
+                    continue
+                if a[0] == "place":
+                    if a[2] in seen_sel:
+                        continue
+                    seen_sel.add(a[2])
+                acts.append(a)
+            e["acts"] = acts
+        scs2.append(s)
+    outs3 = run_impl_parallel("simlib", [{"scenarios": [simgen.to_impl({k: v for k, v in s.items() if k != "_limit"}) for s in ch], "observe": "all"} for ch in chunked(scs2, 20)], timeout=3600)
+    impl3 = [r for o in outs3 for r in o["out"]]
+    bbad2, nacc, nref = [], 0, 0
+    for i, (sc, io) in enumerate(zip(scs2, impl3)):
+        lim = sc["_limit"]
+        nacc += sum(1 for r in io["requests"] if r[3] == "place" and r[5] is not False)
+        nref += sum(1 for r in io["requests"] if r[3] == "place" and r[5] is False)
+        worst = 0
+        for ob in io["obs"]:
+            per_sel = {}
+            for o in ob["orders"]:
+                if o["status"] in ("Violation", None):
+                    continue
+                per_sel.setdefault(o["sel"], []).append(o)
+            for sel, os_ in per_sel.items():
+                win = lose = 0.0
+                for o in os_:
+                    sgn = 1 if o["side"] == "BACK" else -1
+                    for f in o["frags"]:
+                        win += sgn * (f[1] - 1) * f[2]; lose += -sgn * f[2]
+                    if not o["complete"] and o["remaining"] > 0:
+                        w, l = sgn * (o["price"] - 1) * o["remaining"], -sgn * o["remaining"]
+                        win += min(0, w); lose += min(0, l)
+                worst = max(worst, -min(win, lose))
+        if worst > lim / 100 + 0.011 + 0.005 * 8:
+            bbad2.append((i, worst))
+    ck.family("whole_run_bound_several_orders_per_selection", len(scs2), len(scs2), [], [i for i, _ in bbad2],
+              dist={"placements_accepted": nacc, "placements_refused": nref, "note": "worst-case loss per selection (pending orders included) recomputed at every strategy call"})
+    for i, w in bbad2[:2]:
+        ck.fail("C01-bound", "under max_selection_exposure=%s (several orders per selection, exposure read at every update) the strategy's worst-case loss on a selection reached %.2f" % (scs2[i]["_limit"] / 100, w),
+                {"scenario": scs2[i], "worst_seen": w, "how": "harness/impl/simlib.py on the real FlumineSimulation"})
+    # ---- live execution: the decision on the next order of a selection after the previous one was acknowledged by the place response
+    #      (with or without a fill), before and after the order stream has shown it
+    import livegen
+    lcases, lexp = [], []
+    for _ in range(120 if thorough else 40):
+        lim = rng.choice([5, 10, 15])
+        side = rng.choice(["BACK", "LAY"])
+        sel = rng.choice([101, 202])
+        steps = [["book", "OPEN"]]
+        total, exp = 0, []
+        for k in range(rng.randrange(2, 6)):
+            size = rng.choice([200, 300, 400, 600])
+            steps.append(["place", 0, sel, side, 200, size, None, False])       # price 2.00: a LAY risks its size as well
+            ok = total + size <= lim * 100
+            exp.append(ok)
+            if ok:
+                total += size
+                steps.append(["deliver", 0, {"reports": [{"status": "SUCCESS", "matched_frac": rng.choice([0, 0, 1, 2])}], "perm": "id"}])
+                if rng.random() < 0.4:
+                    steps.append(["stream", "full"])
+        lcases.append({"strategies": 1, "limits": {"max_sel": lim, "max_trades": 10 ** 6, "max_live": 10 ** 6, "multi": False, "reset": 0.0, "place_reset": 0.0}, "steps": steps})
+        lexp.append(exp)
+    louts = run_impl_parallel("livelib", [{"job": "exec", "cases": ch} for ch in chunked(lcases, 10)], timeout=3600)
+    lres = [r for o in louts for r in o["out"]]
+    lbad = []
+    ndec = 0
+    for i, (c, r, exp) in enumerate(zip(lcases, lres, lexp)):
+        got = [ob["res"]["results"][0] is True for ob, step in zip(r, c["steps"])
+               if step[0] == "place" and isinstance(ob.get("res"), dict) and isinstance(ob["res"].get("results"), list) and ob["res"]["results"]]
+        ndec += len(got)
+        if got != exp:
+            lbad.append((i, got, exp))
+    ck.family("live_decisions_after_acknowledgement", len(lcases), len(lcases), [], [i for i, *_ in lbad], dist={"decisions": ndec})
+    for i, got, exp in lbad[:2]:
+        ck.fail("C01-live-decision", "live execution under max_selection_exposure=%s: placements accepted %s, the limit (counting every acknowledged order in full) allows %s" % (lcases[i]["limits"]["max_sel"], got, exp),
+                {"case": lcases[i], "accepted": got, "expected": exp, "how": "harness/impl/livelib.py job exec (real Flumine + BetfairExecution against an exchange double)"})
     ck.assumptions.append("the consequence clause (bound along any later history) is proved only as a one-step invariant over accepted placements; its preservation by fills/cancels/lapses/SP conversion is tested on whole runs, not proved (partial)")
     return ck.finish("real StrategyExposure control on random blotters of real orders (0-3 orders on 1-3 selections, all types/statuses) x candidate order or existing order (REPLACE) x each of the three limits set or None x active runners / winners: accept/refuse and VIOLATION status compared in Coq with the model (both tie-breaks) + brute-force property checker on the implementation's decision; whole simulation runs under limits with the per-tick worst-case loss recomputed independently")
 
